@@ -19,7 +19,7 @@ import random
 from vlib import *
 
 HARD = {"HFinished", "HNotEarlyInt", "HInterruptedIfBlocked", "HVerdictBlocked", "HVerdictEarly",
-        "HVerdictBoundary", "HNoChildLeft", "HNotEarlyTimeout"}
+        "HVerdictBoundary", "HNoChildLeft", "HNotEarlyTimeout", "HLateKillNotBeforeGrace"}
 SMIN = 150            # ms; the slack of a record is SMIN + 3 * (largest scheduling delay measured during its run) + spawn baseline
 JIT_LIMIT = 120       # ms; a run during which a 5 ms sleep overshot by more than this is not judged (machine too busy)
 TICK = 25             # ms per tick of the L2 model (GMinT = 4)
@@ -218,7 +218,7 @@ def early_timeout(rec):
 
 
 def case_of(rec):
-    return {k: rec.get(k, 0) for k in ("label", "D", "x", "onint", "ok", "neg", "after")} | ({"via": rec["via"]} if rec.get("via") else {}) | ({"ign": True} if rec.get("ign") else {})
+    return {k: rec.get(k, 0) for k in ("label", "D", "x", "onint", "ok", "neg", "after")} | ({"via": rec["via"]} if rec.get("via") else {}) | ({"ign": True} if rec.get("ign") else {}) | {k: True for k in ("custom", "coe", "bg") if rec.get(k)}
 
 
 def judge(ctx, runner, misses, all_ds=frozenset()):
@@ -324,6 +324,7 @@ def explain(law, r):
         "HVerdictEarly": "command that finished at %d ms was signalled at %d / reported %s/%s" % (r["selfexit"], r["sig"], r["verdict"], r["msg"]),
         "HVerdictBoundary": "reported %s/%s, neither its own verdict nor timed out" % (r["verdict"], r["msg"]),
         "HNoChildLeft": "child pid %d still alive after the run" % r["pid"],
+        "HLateKillNotBeforeGrace": "a command started no earlier than %d ms (what ran in front of it was alive until then) was last alive at %d ms: killed before one grace period was over" % (r.get("prevend", -1), r["last"]),
         "HNotEarlyTimeout": "reported as timed out at %d ms, before the interrupt was due (two grace periods before the deadline)" % r["done"],
         "SIntOnTime": "interrupt at %d ms, later than two grace periods before the deadline + slack %d" % (r["sig"], r["s"]),
         "SKillOnTime": "ignoring child last alive at %d ms (interrupt at %d), not killed one grace period later (+ slack %d)" % (r["last"], r["sig"], r["s"]),
